@@ -55,7 +55,7 @@ def sccs(nodes, succ):
 CMP = {"Gt", "Ge", "Lt", "Le"}
 
 
-def field_counter_guard(body):
+def field_counter_guard(body, facts=None, rec_targets=None):
     """idiom (i): a field of `self` is incremented and decremented in this function and compared against a bound,
     with an error exit reachable from the comparison. Returns field name or None."""
     inc, dec, cmpf = set(), set(), set()
@@ -92,9 +92,53 @@ def field_counter_guard(body):
                 if f:
                     dec.add(f)
     g = inc & dec & cmpf
-    if g and paths.fail_blocks(body):
-        return sorted(g)[0]
+    if not (g and paths.fail_blocks(body)):
+        return None
+    # the counter must stay raised across the recursive descent: some call is reachable from an increment without
+    # passing a decrement, and a decrement is reachable after that call
+    inc_b, dec_b = _blocks_touching(body, sorted(g)[0])
+    calls = [c for c in body.calls() if c.target is not None and (rec_targets is None or any(t in rec_targets for t in _targets(facts, c)))]
+    for ib in inc_b:
+        seen = body.reachable([ib], avoid=[d for d in dec_b if d != ib])
+        for c in calls:
+            if c.bb in seen and c.bb not in dec_b:
+                after = body.reachable([c.target])
+                if any(d in after for d in dec_b):
+                    return sorted(g)[0]
     return None
+
+
+def _targets(facts, c):
+    return facts.call_targets(c) if facts is not None else [c.name]
+
+
+def _blocks_touching(body, field):
+    """(blocks that add to the field, blocks that subtract from it)"""
+    inc_b, dec_b = set(), set()
+    for bi, blk in enumerate(body.blocks):
+        if blk["c"]:
+            continue
+        for st in blk["s"]:
+            if st[0] == "a" and st[2][0] == "bin":
+                op = st[2][1]
+                for o in (st[2][2], st[2][3]):
+                    if o[0] in ("c", "m"):
+                        fs = [p[2] for p in o[1][1] if isinstance(p, list) and p[0] == "f"]
+                        srcf = fs[-1] if fs else _field_of_local(body, op_local(o))
+                        if srcf == field:
+                            if op.startswith("Add"):
+                                inc_b.add(bi)
+                            elif op.startswith("Sub"):
+                                dec_b.add(bi)
+        t = blk["t"]
+        if t[0] == "call" and t[2]:
+            n = t[1].get("d", "")
+            if _field_of_operand(body, t[2][0]) == field:
+                if n.endswith(("saturating_add", "checked_add", "wrapping_add")):
+                    inc_b.add(bi)
+                if n.endswith(("saturating_sub", "checked_sub", "wrapping_sub")):
+                    dec_b.add(bi)
+    return inc_b, dec_b
 
 
 def _field_of_operand(body, op):
